@@ -73,6 +73,20 @@ def check (line : String) : String :=
     | _, _ => "parse-error"
   | _ => "bad-line"
 
+/-- stream refmatrix: just the reference matrix (mod-2 rule) of a pair; used to cross-validate the oracle against
+the expected matrices written by hand in the repository's XML suites -/
+def refOnly (line : String) : String :=
+  match splitBar (Driver.tokens line) with
+  | ["R"] :: ta :: tb :: _ =>
+    match Driver.GTreeIO.parseGeom ta, Driver.GTreeIO.parseGeom tb with
+    | some (ga, []), some (gb, []) =>
+      if hasCurve ga.g || hasCurve gb.g then "skip curved" else
+      match flattenPair ga.g gb.g with
+      | some (A, B) => (refIM .mod2 A.f B.f).toStr
+      | none => "skip non-finite"
+    | _, _ => "parse-error"
+  | _ => "bad-line"
+
 /-! #### stream pred-sm -/
 
 def parseKind (s : String) : Option Kind :=
@@ -123,5 +137,6 @@ end Driver.C01
 def main (args : List String) : IO UInt32 := do
   match args with
   | ["relate-grid"] => Driver.loop (← IO.getStdin) (← IO.getStdout) Driver.C01.check; return 0
+  | ["refmatrix"] => Driver.loop (← IO.getStdin) (← IO.getStdout) Driver.C01.refOnly; return 0
   | ["pred-sm"] => Driver.loop (← IO.getStdin) (← IO.getStdout) Driver.C01.predSM; return 0
   | _ => IO.eprintln "usage: drv_c01 relate-grid"; return 2
